@@ -621,6 +621,12 @@ func syncIndexedDoc(
 		return err
 	}
 
+	if isNewDoc && isDeletedDoc {
+		// The document was not known before the merge and the merged history ends with its
+		// deletion, there is nothing to index.
+		return nil
+	}
+
 	if isNewDoc {
 		return col.indexNewDoc(ctx, doc)
 	} else if isDeletedDoc {
